@@ -132,6 +132,11 @@ def mat(M):
     return a / (2.0 ** M["k"])
 
 
+def singular_inverse(r):
+    """the program inverts a slot whose inverse is not defined by the specification (sums, non-invertible leaves)"""
+    return any(e["op"] == "inverse" and not r["invdef"][e["x"] - 1] for e in r["prog"])
+
+
 def check_program(b, r):
     """returns list of (kind, message) violations; [] if the program conforms"""
     out = []
@@ -139,6 +144,8 @@ def check_program(b, r):
         with quiet():
             op = b.build(r["prog"])
     except Exception as e:
+        if singular_inverse(r):
+            return []          # the inverse of an operator without a defined inverse (e.g. A - A) is outside the instance space
         return [("build", "building the expression raised %s: %s" % (type(e).__name__, str(e)[:150]))]
     cap = op.capability
     rcap = r["rcap"]
